@@ -36,6 +36,8 @@ type Round struct {
 	// Late: waiters that enter Wait in the middle of the script (step "enter"), i.e. after Signals that
 	// may have left a remembered wakeup behind and while earlier waiters sit between unlock and park
 	Late []LateW `json:"late,omitempty"`
+	// Detached: the waiters' contexts are of a hand-written type (sk.Detach)
+	Detached bool `json:"detached,omitempty"`
 }
 
 type LateW struct {
@@ -74,6 +76,7 @@ func genRound(t *rapid.T) Round {
 	if len(p.Late) > 0 {
 		ops = append(ops, "enter", "enter", "enter")
 	}
+	p.Detached = rapid.IntRange(0, 4).Draw(t, "detached") == 0
 	racy := rapid.IntRange(0, 3).Draw(t, "racy") == 0
 	n := rapid.IntRange(0, 8).Draw(t, "n")
 	for i := 0; i < n; i++ {
@@ -206,6 +209,9 @@ func script(l *gatedLocker, c *xsync.ContextCond, p Round, out *vk.Outcome, ever
 	start := func(i int) {
 		w := &waiter{gate: make(chan struct{}), done: make(chan struct{})}
 		w.ctx, w.cancel = sk.WithCancel(context.Background())
+		if p.Detached {
+			w.ctx = sk.Detach(w.ctx)
+		}
 		if pre(i) {
 			w.cancel()
 			cancelled[i] = true
